@@ -384,9 +384,26 @@ def run_instance(inst):
     if r.status != "unsat":
         # a model of the abstracted query is not a witness: replay at concrete values
         found = False
-        for trial in range(4):
-            vals = random_vals(NC, rng)
-            dtv = [0.025, 0.5, 3.0, 0.001][trial]
+        for trial in range(5):
+            if trial == 0:
+                # first the solver's own model: its values for the real inputs (the conductance atoms of the abstracted
+                # query are recomputed by the real code), clamped into a range float64 resolves
+                if not (r.has_witness and r.model):
+                    continue
+                vals = random_vals(NC, rng)
+                for nme in models.SYM_NAMES:
+                    for i in range(NC):
+                        mv = r.model.get(f"{nme}{i}")
+                        if mv is None or mv != mv: continue
+                        mv = float(mv)
+                        if nme in models.POSITIVE: mv = min(max(mv, 1e-3), 1e4)
+                        else: mv = min(max(mv, -1e4), 1e4)
+                        vals[nme][i] = mv
+                mdt = r.model.get("dt")
+                dtv = min(max(float(mdt), 1e-3), 10.0) if mdt is not None and mdt == mdt else 0.025
+            else:
+                vals = random_vals(NC, rng)
+                dtv = [0.025, 0.5, 3.0, 0.001][trial - 1]
             bad, detail = replay_concrete(inst, vals, dtv)
             if bad:
                 res["violations"].append({"signature": _sig(inst, "scheme_rows"),
@@ -395,7 +412,7 @@ def run_instance(inst):
                 found = True
                 break
         if not found:
-            res["inconclusive"].append({"instance": inst, "query": "L2", "reason": f"{r.status}; 4 concrete replays agree with the oracle"})
+            res["inconclusive"].append({"instance": inst, "query": "L2", "reason": f"{r.status}; replays at the solver's model and at 4 random inputs agree with the oracle"})
     # ---------------- L0: pivots cannot vanish (small instances only; nonlinear)
     if vs != "jax.sparse" and NC <= (6 if quick else 10):
         obl = [(c, n_) for c, k, n_ in sym.obligations(xa) if k == "div"]
